@@ -121,7 +121,12 @@ def check(rep, tier, seed):
         sm = random_map(rng, cols, allow_unnamed=False)
         spaced = {l: "New %s land" % l for l in dict.fromkeys(l for _, l in sm)}
         path = os.path.join(WORK, "c01_samples_%d.txt" % k)
-        open(path, "wb").write(samples_file_bytes([(n, spaced[l]) for n, l in sm]))
+        sfb = samples_file_bytes([(n, spaced[l]) for n, l in sm])
+        if k % 3 == 1:
+            sfb = sfb.replace(b"\n", b"\r\n")[:-2]          # a Windows file whose last line has no line ending
+        elif k % 3 == 2:
+            sfb = b"".join(l + (b"\r\n" if i % 2 else b"\n") for i, l in enumerate(sfb.split(b"\n")[:-1]))     # mixed endings
+        open(path, "wb").write(sfb)
         sfiles.append(path)
         mc = "create 0 %s %s - %s" % (",".join(cols), model_samples(sm), model_records(recs))
         jobs.append((["create", "-S", path], render_vcf(cols, recs))); mcases.append(mc); metas.append("samples-file-spaced-labels:" + mc)
